@@ -43,6 +43,12 @@ def cases(draw):
     if fc != "none" and isinstance(s, dict) and draw(st.booleans()):
         s = dict(s)
         s["format"] = draw(st.sampled_from(["ipv4", "date", "regex", "email", "ipv6", "ip-address", "unknown"]))
+    if fc != "none" and isinstance(s, dict) and draw(st.integers(0, 3)) == 0:
+        # a pattern the regex engine cannot compile is still a string, which is all the metaschema asks for
+        s = dict(s)
+        s[draw(st.sampled_from(["pattern", "pattern", "patternProperties"]))] = draw(st.sampled_from(["(", "[a-", "*a"]))
+        if "patternProperties" in s and isinstance(s["patternProperties"], str):
+            s["patternProperties"] = {s["patternProperties"]: {}}
     xs = draw(GI.instances_for(s if isinstance(s, dict) else {}, 3))
     return {"draft": d, "schema": s, "instances": xs, "via_dollar": via_dollar, "format_checker": fc,
             "flavour": flavour, "probes": 10}
